@@ -18,7 +18,8 @@ from . import core
 from . import c01_lang as L
 from . import c01_run as R
 
-VARIANTS = ["eager", "coro_eager", "func_eager", "eager_func", "factory", "eager_ctx"]
+VARIANTS = ["eager", "coro_eager", "func_eager", "eager_func", "factory", "eager_ctx", "cancelling"]
+CTX_VARIANTS = ("eager_ctx", "cancelling")
 FAIL_KINDS = ["E1", "E2", "B1", "RT"]
 
 
@@ -72,9 +73,56 @@ def gen_single(rng, with_cancel, raw=False):
                 script.append(gen_env_event(rng, nfut, with_cancel, True))
             script.append(["settle"])
     variant = rng.choice(VARIANTS)
-    if variant == "eager_ctx" and ["cancel"] not in script:
+    ncan = sum(1 for e in script if e[0] == "cancel")
+    if variant in CTX_VARIANTS and not ncan:
         variant = "eager"
-    return expand({"kind": "single", "prog": prog, "futs": futs, "script": script, "variant": variant})
+    case = {"kind": "single", "prog": prog, "futs": futs, "script": script, "variant": variant}
+    if variant in CTX_VARIANTS:
+        # which of the cancel events is the block exit (earlier ones are cancel() calls inside the block)
+        case["exit_at"] = rng.randrange(ncan)
+    return expand(case)
+
+
+def gen_ctx(rng):
+    """eager_ctx()/cancelling() blocks with cancels issued *inside* the block, bodies that suppress the
+    CancelledError and suspend again, then the block exit: k suppressing stages, then a last stage with
+    cleanup; every stage awaits its own pending future."""
+    k = rng.randint(1, 3)
+    nfut = k + 2
+    prog = []
+    for i in range(k):
+        hb = rng.choice([[], [["S"]], [["L", i + 1]], [["A", nfut - 1]]])
+        prog.append(["T", [["A", i]], rng.choice(["CA", "CA", "BA"]), False, hb,
+                     rng.choice([[], [["L", 9]]])])
+        if rng.random() < 0.3:
+            prog.append(["S"])
+    prog.append(["T", [["A", k]], rng.choice(["N", "CA", "BA"]), True, [["L", 7]],
+                 rng.choice([[], [["L", 8]], [["S"]]])])
+    if rng.random() < 0.5:
+        prog.append(["R", 5])
+    futs = ["P"] * (nfut - 1) + [rng.choice(["V3", "P"])]
+    script = []
+    for _ in range(rng.choice([0, 0, 1])):
+        script.append(["settle"])
+    ncan = rng.randint(1, k + 2)
+    for i in range(ncan):
+        script.append(["cancel"])
+        if rng.random() < 0.15:
+            script.append(["cancel"])
+            ncan += 0
+        if rng.random() < 0.85:
+            script.append(["settle"])
+        if rng.random() < 0.15:
+            script += [["res", rng.randrange(nfut), rng.randint(1, 9)], ["settle"]]
+    script.append(["settle"])
+    total = sum(1 for e in script if e[0] == "cancel")
+    variant = rng.choice(["eager_ctx", "eager_ctx", "cancelling", "eager"])
+    case = {"kind": "single", "prog": prog, "futs": futs, "script": script, "variant": variant}
+    if variant in CTX_VARIANTS:
+        case["exit_at"] = rng.randrange(total)
+    if not script_ok(script):
+        script.append(["settle"])
+    return expand(case)
 
 
 def expand(case):
@@ -175,8 +223,10 @@ def oracle_single(case):
             tags.add("future-event-before-first-step")
         if any(e[0] == "clr" for e in pre):
             tags.add("flag-cleared-while-held")
-        if case["variant"] in ("factory", "eager_ctx", "func_eager", "eager_func", "coro_eager"):
+        if case["variant"] != "eager":
             tags.add("variant:" + case["variant"])
+        if case["variant"] in CTX_VARIANTS and case.get("exit_at", 0) > 0:
+            tags.add("cancel-inside-block-then-exit")
     for i, e in enumerate(ev):
         if e[0] == "cancel" and i >= n:
             tags.add("cancel-later")
@@ -229,6 +279,8 @@ def key_single(prop, what, case):
     where = "cancel-before-first-step" if any(e[0] == "cancel" for e in pre) else \
         "cancel" if ["cancel"] in case["events"] else "no-cancel"
     clr = ":flag-cleared-while-held" if any(e[0] == "clr" for e in pre) else ""
+    if case["variant"] in CTX_VARIANTS:
+        return f"{prop}:single:block-exit" + (":after-cancel-inside-block" if case.get("exit_at", 0) else "")
     return f"{prop}:single:{where}{clr}"
 
 
@@ -239,8 +291,13 @@ def shrink_single(case, fails):
     def with_script(items):
         c = dict(cur)
         c["script"] = items if items and items[-1][0] == "settle" else items + [["settle"]]
-        if c["variant"] == "eager_ctx" and ["cancel"] not in items:
-            c["variant"] = "eager"
+        ncan = sum(1 for e in items if e[0] == "cancel")
+        if c["variant"] in CTX_VARIANTS:
+            if not ncan:
+                c["variant"] = "eager"
+                c.pop("exit_at", None)
+            else:
+                c["exit_at"] = min(c.get("exit_at", 0), ncan - 1)
         return expand(c)
 
     def f2(items):
@@ -262,9 +319,16 @@ def shrink_single(case, fails):
                 cur = c
                 improved = True
                 break
+    if cur["variant"] in CTX_VARIANTS:
+        for x in range(cur.get("exit_at", 0)):
+            c = {**cur, "exit_at": x}
+            if fails(c):
+                cur = c
+                break
     if cur["variant"] != "eager":
         c = dict(cur)
         c["variant"] = "eager"
+        c.pop("exit_at", None)
         if fails(c):
             cur = c
     return cur
@@ -486,8 +550,9 @@ def without_cancel(case):
     if case.get("kind") == "multi":
         return {**case, "env": [x for x in case["env"] if x[0][0] != "cancel"]}
     c = {**case, "script": [e for e in case["script"] if e[0] != "cancel"]}
-    if c["variant"] == "eager_ctx":
+    if c["variant"] in CTX_VARIANTS:
         c["variant"] = "eager"
+        c.pop("exit_at", None)
     return expand(c)
 
 
@@ -616,6 +681,11 @@ def run_stream(ctx, prop, theorem, with_cancel, n_single, n_raw, n_multi):
         batch.append((case, "E"))
         if rng.random() < 0.25:
             batch.append((case, rng.choice(["P", "PS"])))
+    if with_cancel:
+        for _ in range(max(50, n_single // 6)):
+            case = gen_ctx(rng)
+            check_single(ctx, prop, case, theorem)
+            batch.append((case, "E"))
     for _ in range(n_raw):
         case = gen_single(rng, with_cancel, raw=True)
         ctx.case(case_text(case), ["raw-script"])
